@@ -35,7 +35,8 @@ EXPLANATION = (
     'tags named other are refused. R7: every store into a name-keyed registry of the generator is '
     'dominated by a membership test. R8: parser actions attach each optional part (doc, '
     'annotations, default, attrs, examples) under its own presence test only. Decides these '
-    'structural parts, not field-by-field fidelity.')
+    'structural parts, not field-by-field fidelity.'
+    ' R9: route attribute values are tested for absence with `is None` only, so that a declared 0/false/"" is not replaced by the schema default.')
 ASSUMPTIONS = [
     'registries of ApiNamespace are the attributes initialised to [] / {} in its __init__',
     'a "membership test" is `key in registry` / `key not in registry` on the same key and registry',
@@ -476,3 +477,61 @@ def run(pm, ctx):
                   % (nm, cls, sorted(needed)), f.loc,
                   msg='%s no longer passes every component (%s) to %s, or passes one twice: %s'
                       % (nm, sorted(needed), cls, kws), key='C02-R8|%s|ctor' % f.qualname)
+
+    # ---------------- R9: declared values survive even when they are falsy
+    ctx.rule('C02-R9', 'absence of a declared value is tested with `is None`, never by truth value '
+                       '(0, false, "" and 0.0 are declarable)')
+    from ..truthiness import bool_uses, none_tests
+    for q, name, what in (
+            (IRM + '.StructField.check_attr_repr', 'attr', 'route attribute value'),
+            (IRM + '.Struct.check_attr_repr', 'attr', 'route attribute value'),
+            (IRM + '.Nullable.check_attr_repr', 'attr_field', 'route attribute'),
+            (IRM + '.Primitive.check_attr_repr', 'attr_field', 'route attribute')):
+        if q not in pm.functions:
+            continue
+        f = pm.func(q)
+        uses = bool_uses(f.node, name)
+        ctx.check('C02-R9', not uses, '%s never tests %s by truth value' % (f.short, name), f.loc,
+                  msg='%s tests the %s `%s` by truth value (line %s): a declared 0, false or "" '
+                      'is taken for "not given" and replaced by the schema default'
+                      % (f.short, what, name, [u.lineno for u in uses]),
+                  key='C02-R9|%s|%s' % (f.qualname, name))
+    # the same discipline everywhere a declared value travels through the IR and the frontend
+    value_names = ('default', 'default_value', 'attr', 'attr_val', 'attr_value',
+                   'min_value', 'max_value', 'min_items', 'max_items', 'min_length',
+                   'max_length', 'pattern')
+    allowed = {
+        ('stone.ir.data_types.List.__init__', 'min_items'):
+            'only skips the min<=max comparison, which cannot fail for min_items == 0',
+        ('stone.ir.data_types.List.__init__', 'max_items'):
+            'max_items == 0 was refused two statements earlier',
+        ('stone.ir.data_types.String.__init__', 'min_length'):
+            'only skips the min<=max comparison, which cannot fail for min_length == 0',
+        ('stone.ir.data_types.String.__init__', 'max_length'):
+            'max_length == 0 was refused two statements earlier',
+        ('stone.ir.data_types.String.__init__', 'pattern'):
+            'an empty pattern matches everything: treating it as absent changes nothing',
+    }
+    n_funcs = 0
+    for q, f in sorted(pm.functions.items()):
+        if not (q.startswith('stone.ir.') or q.startswith('stone.frontend.')):
+            continue
+        n_funcs += 1
+        for nm in value_names:
+            uses = bool_uses(f.node, nm, include_nested=False)
+            if not uses:
+                continue
+            if (q, nm) in allowed:
+                ctx.exempt('C02-R9', '%s: %s' % (q, nm), allowed[(q, nm)])
+                continue
+            ctx.check('C02-R9', False, '%s never tests %s by truth value' % (f.short, nm), f.loc,
+                      msg='%s tests the declared value `%s` by truth value (line %s): 0, false '
+                          'or "" would be taken for "not given"' % (
+                              f.short, nm, [u.lineno for u in uses]),
+                      key='C02-R9|%s|%s' % (q, nm))
+    ctx.extra['C02-R9_functions_scanned'] = n_funcs
+    sf = pm.func(IRM + '.StructField.check_attr_repr')
+    ctx.check('C02-R9', len(none_tests(sf.node, 'attr')) >= 2,
+              'StructField.check_attr_repr decides absence by `attr is None`', sf.loc,
+              msg='StructField.check_attr_repr no longer tests `attr is None`',
+              key='C02-R9|%s|none-tests' % sf.qualname)
